@@ -112,7 +112,7 @@ def run(rep):
         return s
     # ---- R1 resource struct ---------------------------------------------------------------------------------------------------
     rs = star_over_bindings(lambda t: E.tmpl_text(t).startswith('pub #') and ':' in E.tmpl_text(t) and 'wgpu ::' not in E.tmpl_text(t).split(':')[0], 'R1-fields')
-    struct_ts = E.find_templates(body, lambda t: "<' a > {" in E.tmpl_text(t) and 'pub struct #' in E.tmpl_text(t))
+    struct_ts = E.find_templates(body, lambda t: "<'a > {" in E.tmpl_text(t) and 'pub struct #' in E.tmpl_text(t))
     rep.check(len(struct_ts) == 1, 'C04.R1.struct', 'resource-struct', where, f'{len(struct_ts)} resource struct templates', ok_detail='one')
     kinds1 = None
     if struct_ts:
@@ -131,7 +131,7 @@ def run(rep):
                 if k is None:
                     continue
                 rep.check(k == KINDS[v], 'C04.R1.field-type', f'field-type:{v}', where, f'a {v} resource gets field type kind {k}; expected {KINDS[v]}', ok_detail=f'{v} -> {k}')
-            for v, want in (('Struct', "wgpu :: BufferBinding <' a >"), ('Image', "&' a wgpu :: TextureView"), ('Sampler', "&' a wgpu :: Sampler")):
+            for v, want in (('Struct', "wgpu :: BufferBinding <'a >"), ('Image', "&'a wgpu :: TextureView"), ('Sampler', "&'a wgpu :: Sampler")):
                 def leaf(t, v=v):
                     return (V(TI + v),) if t == scr[0] else None
                 try:
@@ -228,7 +228,7 @@ def run(rep):
             ok = s[1] == KEYS and not s[4] and not s[5]
             rep.check(ok, 'C04.R5.all-groups', f'{label}-source', where, f'{label} are generated from {E.show(s[1], maxdepth=4)} with {len(s[4])} filter(s); expected every key of the group map', ok_detail='for group_no in map.keys()')
             return s
-        fs = key_star(lambda t: E.tmpl_text(t).startswith('pub #') and "&' a #" in E.tmpl_text(t), 'BindGroups-fields')
+        fs = key_star(lambda t: E.tmpl_text(t).startswith('pub #') and "&'a #" in E.tmpl_text(t), 'BindGroups-fields')
         if fs is not None:
             k = ('elem', fs[2], fs[1])
             t = E.find_templates(fs[3], lambda t: True)[0]
@@ -254,7 +254,7 @@ def run(rep):
             rep.check(okk, 'C04.R5.set-once', 'set_bind_groups-body', where, 'set_bind_groups does not consist of one parameter list and one list of set calls', ok_detail='one parameter per group, one set call per group')
         # ---- R6 fixed impls -----------------------------------------------------------------------------------------------------------
         for ty in ('ComputePass', 'RenderPass', 'RenderBundleEncoder'):
-            frag = f"impl SetBindGroup for wgpu :: {ty} <' _ > {{ fn set_bind_group ( & mut self , index : u32 , bind_group : & wgpu :: BindGroup , offsets : & [ wgpu :: DynamicOffset ] , ) {{ self . set_bind_group ( index , bind_group , offsets ) ; }} }}"
+            frag = f"impl SetBindGroup for wgpu :: {ty} <'_ > {{ fn set_bind_group ( & mut self , index : u32 , bind_group : & wgpu :: BindGroup , offsets : & [ wgpu :: DynamicOffset ] , ) {{ self . set_bind_group ( index , bind_group , offsets ) ; }} }}"
             rep.check(frag in mtxt, 'C04.R6.set-bind-group-impls', f'impl:{ty}', where, f'SetBindGroup is not implemented for wgpu::{ty} by positional forwarding of (index, bind_group, offsets)', ok_detail='forwards (index, bind_group, offsets)')
         rep.check(mtxt.count('impl SetBindGroup for') == 3, 'C04.R6.set-bind-group-impls', 'impl-count', where, f'{mtxt.count("impl SetBindGroup for")} implementors', ok_detail='exactly three implementors')
     # ---- R7 pipeline layout -------------------------------------------------------------------------------------------------------------
